@@ -202,8 +202,11 @@ def run_patch(spec, acc):
         cx_abs = shift_scale(cx, -xm, Fr(1))     # q(x) := qc(x - xm)
         ct_abs = shift_scale(ct, -tm, Fr(1))
         res = poly_residual([float(c) for c in ct], [float(c) for c in cx], float(tm), float(xm))
-        EE = ErrorEstimator(mesh, N_poly=(N_outer, N_outer, N_time, N))
-        w = dict(wit0, elem=ekey(e), orders=(N_outer, N_outer, N_time, N), ct=[str(c) for c in ct], cx=[str(c) for c in cx])
+        # the weighted-L2 order is a separate argument too: in a third of the cases it is too low for the residual (then only the
+        # Sobolev values are judged), so that an order handed to the wrong rule shows in the Sobolev patches
+        N_wl2 = N_outer if rng.random() < 0.67 else rng.choice([1, 3])
+        EE = ErrorEstimator(mesh, N_poly=(N_wl2, N_outer, N_time, N))
+        w = dict(wit0, elem=ekey(e), orders=(N_wl2, N_outer, N_time, N), ct=[str(c) for c in ct], cx=[str(c) for c in cx])
         acc.seen('order:%d' % N)
         try:
             tot_s, ips_s = EE.sobolev_space(e, res)
@@ -235,6 +238,9 @@ def run_patch(spec, acc):
         acc.seen('ind:weighted_l2')
         acc.case('%s|%d|%r|wl2' % (curve, spec['rseed'], ekey(e)), None)
         for val, want, nm in ((wl2[0], l2 / math.sqrt(e.h_t), 'time'), (wl2[1], l2 / e.h_x, 'space')):
+            if 2 * max(dt, dx) > N_wl2:
+                acc.count('weighted_l2_beyond_exactness_not_judged')
+                continue
             if abs(val - want) > 1e-9 * abs(want) + 1e-300:
                 acc.violation('weighted-l2-wrong:' + nm, '%s: weighted_l2 %s part %r, definition %r' % (curve, nm, val, want), w)
             acc.worst_of('weighted_l2 rel.err', abs(val - want) / abs(want) if want else 0.0)
